@@ -103,7 +103,7 @@ def scenario(rng, small):
         t = start - s * dt if rev else start + s * dt
         for _ in range(rng.choice([1, 1, 2, 3])):
             rid += 1
-            rows.append(dict(t=t, mult=rng.choice([0, 1, 1, 2, 3]),
+            rows.append(dict(t=t, mult=rng.choice([0, 1, 1, 2, 3]) if rng.random() > 0.02 else rng.choice([257, 700]),      # (now and then a row with hundreds of particles)
                              pay=dict(id=rid, x=rng.randrange(1 * QX, 9 * QX), y=rng.randrange(1 * QX, 7 * QX),
                                       z=rng.randrange(0, 50 * QZ), wt=rng.randrange(0, 40))))
     nomult = rng.random() < 0.15
